@@ -8,8 +8,9 @@ from framework import Case
 PROP = 'C02'
 # the verdict functions of Model/Causaloid.lean the C02 theorems are about (verifySingle, verifyAll, reasonFrom / reasonColl) are tied
 # to the current source by tools/rs2lean_causable.py -> Gen/Causable.lean and Props/C11Gen.lean (graph reasoning stays abstract there)
-TRANSLATORS = ['causable']
-EXTRA_THEOREM_MODULES = ['DcVerif.Props.C11Gen']
+# graph level: tools/rs2lean_reasoning.py -> Gen/ReasoningN.lean (the generated graph reasoning over nodes that may be wrappers) and Props/C02Gen.lean
+TRANSLATORS = ['causable', 'reasoning', 'reasoningN']
+EXTRA_THEOREM_MODULES = ['DcVerif.Props.C11Gen', 'DcVerif.Props.C02Gen']
 BUILDS = ['safe']
 RULE = ('random nesting trees of singletons / collection wrappers / graph wrappers, depth ≤ 3 (quick) / ≤ 5 (thorough), fan-out ≤ 4, '
         'graphs = random DAGs (tree + extra edges, node order independent of edge direction, root at any position, wrappers in '
